@@ -44,6 +44,9 @@ type c13Scn struct {
 	Output  string `json:"output"`
 	BufSize int    `json:"bufsize,omitempty"`
 	CRLF    bool   `json:"crlf,omitempty"`
+	// OutMode: "" | csv | tsv output mode (child-free programs; payloads never need quoting, an
+	// empty print is written as "")
+	OutMode string `json:"out_mode,omitempty"`
 	// faults
 	HasFail   bool `json:"has_fail,omitempty"`
 	FailAt    int  `json:"fail_at,omitempty"`
@@ -133,6 +136,14 @@ var c13funcs = map[string]any{
 			st.yield(id)
 		}
 		return s
+	},
+	"etok": func(id int) string {
+		st := c13cur
+		st.trace = append(st.trace, c13Entry{ID: id})
+		if st.yield != nil {
+			st.yield(id)
+		}
+		return ""
 	},
 	"obs": func(id int, v float64) {
 		st := c13cur
@@ -225,6 +236,9 @@ func c13GenOps(r *core.Rand, depth int, kids string, inRule bool) []c13Op {
 			}
 			if r.Chance(1, 40) {
 				op.Big = core.Pick(r, []int{4096, 65536, 70000, 131100})
+			}
+			if kids == "none" && op.Kind == "print" && op.Big == 0 && r.Chance(1, 8) {
+				op.Kind = "print-empty"
 			}
 		case k < 56:
 			op.Kind = "close"
@@ -332,6 +346,9 @@ func (c13Engine) Gen(r *core.Rand, tier string, i int) any {
 	}
 	sc.BufSize = core.Pick(r, []int{16, 64, 4096, 65536})
 	sc.CRLF = r.Chance(1, 8)
+	if kids == "none" && r.Chance(1, 5) {
+		sc.OutMode = core.Pick(r, []string{"csv", "tsv"})
+	}
 	if r.Chance(1, 3) {
 		sc.Pre = map[string]string{}
 		for _, f := range []string{"A", "B", "C"} {
@@ -428,6 +445,8 @@ func (g *c13Gen) gen(ops []c13Op) string {
 		switch op.Kind {
 		case "print":
 			fmt.Fprintf(&sb, "print tok(%d)%s; ", id, redir)
+		case "print-empty":
+			fmt.Fprintf(&sb, "print etok(%d)%s; ", id, redir)
 		case "printf":
 			fmt.Fprintf(&sb, "printf \"%%s\", tok(%d)%s; ", id, redir)
 		case "close":
@@ -552,9 +571,12 @@ func (m *c13Model) startCmd(name string) string {
 // apply one started operation; complete=false for the last operation of a run that ended with an error
 func (m *c13Model) apply(idx int, e c13Entry, op *c13Op, complete bool) {
 	switch op.Kind {
-	case "print", "printf":
+	case "print", "printf", "print-empty":
 		text := e.Tok
-		if op.Kind == "print" {
+		if op.Kind == "print-empty" && m.sc.OutMode != "" {
+			text = `""` // a record of one empty field
+		}
+		if op.Kind != "printf" {
 			text += "\n"
 		}
 		text = m.nl(text)
@@ -867,6 +889,12 @@ func c13Exec(sc *c13Scn, src string, ops map[int]*c13Op, failAt int, log *core.L
 	if len(sc.Rule) > 0 {
 		cfg.Args = []string{"recs"}
 	}
+	switch sc.OutMode {
+	case "csv":
+		cfg.OutputMode = interp.CSVMode
+	case "tsv":
+		cfg.OutputMode = interp.TSVMode
+	}
 	if sc.CRLF {
 		cfg.NewlineOutput = interp.CRLFNewlineMode
 	}
@@ -936,7 +964,7 @@ func c13Exec(sc *c13Scn, src string, ops map[int]*c13Op, failAt int, log *core.L
 		// a print to standard output that started after the failing flush got the sticky error
 		for i := res.FailedAtTrace; i < len(st.trace); i++ {
 			op := ops[st.trace[i].ID]
-			if (op.Kind == "print" || op.Kind == "printf") && (op.Redir == "" || op.Dest == "-" || op.Dest == "/dev/stdout") {
+			if (op.Kind == "print" || op.Kind == "printf" || op.Kind == "print-empty") && (op.Redir == "" || op.Dest == "-" || op.Dest == "/dev/stdout") {
 				res.WriteErrs++
 			}
 		}
@@ -1107,7 +1135,7 @@ func (e c13Engine) Run(scAny any, keep bool) (out core.Outcome) {
 }
 
 func c13Check(sc *c13Scn, src string, ops map[int]*c13Op, failAt int, res *c13Result, out *core.Outcome) *core.Failure {
-	desc := fmt.Sprintf("output=%s/%d crlf=%v fail_at=%d flush_fail=%v devfull=%q emfile=%q pre=%v records=%d\nprogram:\n%s", sc.Output, sc.BufSize, sc.CRLF, failAt, sc.FlushFail, sc.DevFull, sc.EMFile, sc.Pre, sc.Records, src)
+	desc := fmt.Sprintf("output=%s/%d out_mode=%q crlf=%v fail_at=%d flush_fail=%v devfull=%q emfile=%q pre=%v records=%d\nprogram:\n%s", sc.Output, sc.BufSize, sc.OutMode, sc.CRLF, failAt, sc.FlushFail, sc.DevFull, sc.EMFile, sc.Pre, sc.Records, src)
 	fail := func(oracle, detail string) *core.Failure {
 		return &core.Failure{Oracle: oracle, Detail: detail + "\n" + desc}
 	}
@@ -1480,6 +1508,9 @@ func (c13Engine) Shrink(scAny any) []any {
 	}
 	if sc.Records > 1 {
 		add(func(c *c13Scn) { c.Records-- })
+	}
+	if sc.OutMode != "" {
+		add(func(c *c13Scn) { c.OutMode = "" })
 	}
 	if sc.CRLF {
 		add(func(c *c13Scn) { c.CRLF = false })
